@@ -456,10 +456,33 @@ def mon_C06(case, obs):
             for p in targets:
                 prev = obs[n - 1] if n else None
                 owned = [j for j in (prev or o)['jobs'] if j['kind'] == 'apply' and p in j['wpids'] and not j['ready']]
+                if prev is not None and p not in {w[0] for w in prev['workers']}:
+                    out.append(('C06:soft-signal-to-worker-not-in-pool',
+                                'USR1 sent to pid %d at event %d %s although that worker is not in the pool any more '
+                                '(the limit cannot be raised inside the process running the job; the pid may belong to anybody)' % (p, n, e)))
                 if prev is not None and not owned:
                     out.append(('C06:soft-signal-without-running-job',
                                 'USR1 sent to pid %d at event %d %s although no unresolved job is owned by it '
                                 '(its result had already been handled)' % (p, n, e)))
+    return out
+
+
+def mon_C06_owner_gone(case, obs):
+    """no soft-limit callback for a job whose worker is not in the pool (the supervisor has reaped
+    it): the limit cannot be enforced in the process that ran the job"""
+    out = []
+    for n, (e, o) in enumerate(zip(case['events'], obs)):
+        if not n or e[0] not in ('scan', 'scan_step'):
+            continue
+        prev = obs[n - 1]
+        inpool = {w[0] for w in prev['workers']}
+        for k, j in _apply_jobs(o):
+            if k < len(prev['jobs']):
+                new = [t for t in j['cb'][3][len(prev['jobs'][k]['cb'][3]):] if t[0]]
+                if new and j['wpids'] and j['wpids'][0] not in inpool:
+                    out.append(('C06:soft-signal-to-worker-not-in-pool',
+                                'job %d got the soft-limit callback %s at event %d %s although its worker %d had left the pool'
+                                % (k, new, n, e, j['wpids'][0])))
     return out
 
 
@@ -709,7 +732,7 @@ def mon_known_C09(case, obs):
     return out
 
 
-MONITORS = dict(C01=[mon_C01], C04=[mon_C04, mon_known_C04], C05=[mon_C05, mon_C05_jobs, mon_C05_after_result, mon_C05_stopped, mon_known_C05], C06=[mon_C06, mon_C06_timing],
+MONITORS = dict(C01=[mon_C01], C04=[mon_C04, mon_known_C04], C05=[mon_C05, mon_C05_jobs, mon_C05_after_result, mon_C05_stopped, mon_known_C05], C06=[mon_C06, mon_C06_timing, mon_C06_owner_gone],
                 C09=[mon_C09, mon_known_C09], C10=[mon_C10, mon_known_C10], C11=[mon_C11])
 
 
@@ -1211,6 +1234,15 @@ MONITORS['C01'].append(mon_C01_unresolved)
 MONITORS['C01'].append(mon_C01_feed)
 MONITORS['C07'] = [mon_known_C07, mon_C01, mon_C07_closed, mon_C07_credit, mon_C07_started_after_close]
 MONITORS['C09'].append(mon_C07_started_after_close)
+
+
+def mon_C09_credit(case, obs):
+    """a replacement worker's handled results are credited to it: otherwise it waits out the 30 s
+    guard when it is recycled and the jobs queued behind it are held up"""
+    return [('C09:replacement-worker-not-credited', w) for s_, w in mon_C07_credit(case, obs)]
+
+
+MONITORS['C09'].append(mon_C09_credit)
 def mon_C08_started_after_shutdown(case, obs):
     """a worker started once the pool has left the RUN state is never signalled by terminate()"""
     return [('C08:worker-started-after-shutdown-began', w) for s_, w in mon_C07_started_after_close(case, obs)]
